@@ -64,8 +64,12 @@ func makeURLKey(u *url.URL) string {
 	// removeDotSegments below. [url.URL.ResolveReference] is only used for the
 	// other components: its path resolution drops empty segments after a ".." at
 	// the root ("/..//" becomes "/" instead of "//").
-	base, _ := url.Parse(u.Scheme + "://" + u.Host)
-	normalized := base.ResolveReference(u)
+	// (The re-parsed authority fails for a URL without a scheme, and for hosts whose
+	// text does not parse again, such as "[fe80::1%eth0]": u's own components are used then.)
+	normalized := u
+	if base, err := url.Parse(u.Scheme + "://" + u.Host); err == nil && base != nil {
+		normalized = base.ResolveReference(u)
+	}
 
 	// RFC 3986 §6.2.2.1: Scheme is lowercased (already done by [url.Parse]).
 	scheme := normalized.Scheme
